@@ -64,10 +64,24 @@ def coq_build():
 
 
 def harness_build():
+    # two checks started at the same time in the same tree must not write go.sum / go.mod / the binary under each other
+    # (seen once: four checks in parallel, 'malformed go.sum' reported as a build failure): one build at a time
     os.makedirs(BUILD, exist_ok=True)
+    import fcntl
+    with open(os.path.join(BUILD, ".harness_build.lock"), "w") as lk:
+        fcntl.flock(lk, fcntl.LOCK_EX)
+        return _harness_build()
+
+
+def _harness_build():
     # go.sum must match /repo's (offline: no sum database)
     try:
-        shutil.copyfile(os.path.join(REPO, "go.sum"), os.path.join(HARNESS, "go.sum"))
+        src = open(os.path.join(REPO, "go.sum"), "rb").read()
+        dst = os.path.join(HARNESS, "go.sum")
+        if not os.path.exists(dst) or open(dst, "rb").read() != src:
+            tmp = dst + ".tmp%d" % os.getpid()
+            open(tmp, "wb").write(src)
+            os.replace(tmp, dst)
     except OSError:
         pass
     binp = os.path.join(BUILD, "harness")
